@@ -7,6 +7,10 @@
 (*                   danger alphabet x all attribute/tag-syntax option vectors (108)            *)
 (*   Mode = "misc":  doctypes, comments, Entity tokens                                          *)
 (*   Mode = "cross": a fixed list of mixed streams x ALL 576 option vectors                     *)
+(*   Mode = "enc":   EVERY code point of the handler's entity table (1414) and numeric probes  *)
+(*                   (all of U+0080-9F, CJK, astral, noncharacters) as the one character the     *)
+(*                   encoding lacks x follower class {letter, digit, '=', ';', end, space} x      *)
+(*                   {attribute value quoted / unquoted, text, RCDATA, raw text, comment}          *)
 (*   Mode = "table": every (element, attribute) pair around the boolean-attribute table, every  *)
 (*                   void / non-void name around the void table, every raw-text name x namespace *)
 (* Domain restrictions (= what html5lib's parser can put into a tree): no children/comments     *)
@@ -29,7 +33,8 @@ Dt(n, p, s)  == T("Doctype", n, None, <<>>, <<>>, p, s)
 Ent(n)       == T("Entity", n, None, <<>>, <<>>, None, None)
 
 Opt(qav, qc, lt, esc, min, sol, sp, res) ==
-    [qav |-> qav, qc |-> qc, ltattr |-> lt, escrc |-> esc, minbool |-> min, solidus |-> sol, spacesol |-> sp, resolve |-> res]
+    [qav |-> qav, qc |-> qc, ltattr |-> lt, escrc |-> esc, minbool |-> min, solidus |-> sol, spacesol |-> sp, resolve |-> res,
+     pf |-> <<>>]
 DefaultOpt == Opt("legacy", "best", FALSE, FALSE, TRUE, FALSE, TRUE, TRUE)
 QAV == {"legacy", "spec", "always"}
 QC  == {"best", "dq", "sq"}
@@ -171,10 +176,36 @@ BNext ==
           /\ \E n \in RawProbe, ns \in {NS_html, NS_svg, None}, d \in {<<60, 38, 62>>, <<60, 47, 97>>} :
                 toks' = <<St(n, ns, <<>>), Ch(d), En(n, ns), Ch(<<60>>)>> /\ ph' = 1 /\ UNCHANGED o
 
+\* ---------- enc mode ----------
+NumProbe == (128..159) \cup {888, 19968, 55296, 57343, 64976, 65534, 128512, 1114111}
+EncChars == IF Size >= 1 THEN EncCps \cup NumProbe
+            ELSE {c \in EncCps : c < 256 \/ c % 16 = 0} \cup NumProbe
+LA(i, v) == <<None, <<96 + i>>, v>>                     \* attribute named a, b, c ...
+EncStreamA(c) == <<St(N_p, NS_html, <<LA(1, <<c, 97>>), LA(2, <<c, 49>>), LA(3, <<c, 61>>), LA(4, <<c, 59>>), LA(5, <<c>>),
+                                      LA(6, <<c, 32, 98>>), LA(7, <<97, c>>)>>),
+                   Ch(<<c, 97, 32, c, 49, 32, c, 61, 32, c, 59, 32, c>>), En(N_p, NS_html),
+                   St(N_title, NS_html, <<>>), Ch(<<c, 97>>), En(N_title, NS_html)>>
+EncStreamB(c) == <<St(N_style, NS_html, <<>>), Ch(<<c>>), En(N_style, NS_html)>>
+EncStreamC(c) == <<Ch(<<c>>), Cm(<<c>>), Ch(<<97>>)>>
+EncStreamD(c) == <<St(N_p, NS_html, <<<<None, <<c>>, <<97>>>>>>), En(N_p, NS_html)>>
+\* "spec" quoting writes the values of stream A both quoted (c=, c b) and unquoted (the rest)
+EncOpts == IF Size >= 2 THEN {DefaultOpt, [DefaultOpt EXCEPT !.qav = "spec"], [DefaultOpt EXCEPT !.qav = "always", !.qc = "sq"]}
+           ELSE {[DefaultOpt EXCEPT !.qav = "spec"]}
+EInit0 == \E oo \in EncOpts : toks = <<>> /\ open = <<>> /\ o = oo /\ ph = 0
+\* two steps (pick the character, then build the stream) so that the expensive states are spread over the workers
+ENext == \/ /\ ph = 0 /\ ph' = 1 /\ UNCHANGED <<open, toks>>
+            /\ \E c \in EncChars : o' = [o EXCEPT !.pf = <<c>>]
+         \/ /\ ph = 1 /\ ph' = 2 /\ UNCHANGED <<open, o>>
+            /\ LET c == o.pf[1] IN
+               \/ toks' = EncStreamA(c)
+               \/ o.qav = "spec" /\ toks' = EncStreamB(c)
+               \/ o.qav = "spec" /\ c \in NumProbe /\ toks' = EncStreamC(c)
+               \/ o.qav = "spec" /\ c \in NumProbe /\ toks' = EncStreamD(c)
+
 Init == CASE Mode = "text" -> TInit0 [] Mode = "attr" -> AInit0 [] Mode = "misc" -> MInit0 [] Mode = "table" -> BInit0
-          [] OTHER -> CInit0
+          [] Mode = "enc" -> EInit0 [] OTHER -> CInit0
 Next == CASE Mode = "text" -> TNext [] Mode = "attr" -> ANext [] Mode = "misc" -> MNext [] Mode = "table" -> BNext
-          [] OTHER -> CNext
+          [] Mode = "enc" -> ENext [] OTHER -> CNext
 
 \* ---------- theorems ----------
 Res      == SerRun(toks, o, KnownDefects)
@@ -183,6 +214,6 @@ Ill      == IF Ok THEN {} ELSE Fired(toks, o, KnownDefects)
 ThmProperty  == CheckProperty => Ok
 ThmStrictCut == LET r == Res IN (r.ferr = -1 <=> r.errs = <<>>) /\ r.ferr <= Len(r.out)
 ThmExplained == Ok \/ (Ill # {} /\ Faithful(toks, o, SerRun(toks, o, {})))
-ThmExport == Export => PrintT(ToJson([inp |-> toks, o |-> o, out |-> Res.out, errs |-> Res.errs, ferr |-> Res.ferr,
+ThmExport == Export => PrintT(ToJson([inp |-> toks, o |-> o, out |-> OutOf(Res), errs |-> Res.errs, ferr |-> CutOf(Res),
                                       ill |-> Ill, c |-> IF Ok THEN "ok" ELSE Judge(toks, o, Res.out).c]))
 =============================================================================
